@@ -311,6 +311,19 @@ func c14negCases(st *Stats) []Case {
 		n++
 		st.Inc("session_bound_jid_differs")
 	}
+	// a configuration value that already served another account (struct copy, Jid and credential replaced): the
+	// payload is the NEW account's
+	for _, insecure := range bools {
+		cases = append(cases, Case{ID: fmt.Sprintf("neg%d", n),
+			Variant: []string{"neg", "insecure=" + strconv.FormatBool(insecure), "sm=false", "cfgreuse=true"},
+			Ops:     [][]string{happy(true, false, false).op(), happy(true, false, false).op()}})
+		n++
+		st.Inc("session_config_reused")
+	}
+	cases = append(cases, Case{ID: fmt.Sprintf("neg%d", n), Variant: []string{"neg", "insecure=true", "sm=true", "cfgreuse=true"},
+		Ops: [][]string{happy(false, true, true).op()}})
+	n++
+	st.Inc("session_config_reused")
 	// traffic logging on: what reaches the server is still exactly the payload (the stream logger sits between the
 	// transport and the socket - before and after STARTTLS)
 	for _, insecure := range bools {
